@@ -1,0 +1,8 @@
+//go:build !verif
+
+// Package verifhook provides named pause points for external runtime-verification harnesses.
+// Without the "verif" build tag every call is an empty function that the compiler removes.
+package verifhook
+
+// At marks a point a verification harness may observe or hold. No-op in normal builds.
+func At(point, key string) {}
